@@ -1397,6 +1397,11 @@ func (c *connection) Join(conn net.Conn, id string, dial gen.NetworkDial, tail [
 	}
 
 	c.pool_mutex.Lock()
+	if c.terminated {
+		// Terminate got in between: it has closed (or is about to close) the links of the pool only
+		c.pool_mutex.Unlock()
+		return fmt.Errorf("connection terminated")
+	}
 	if c.pool_size+1 < len(c.pool) {
 		c.pool_mutex.Unlock()
 		return fmt.Errorf("pool size limit")
